@@ -1,8 +1,8 @@
 #!/usr/bin/env python3
 # Behaviour-preserving refactorings (written by independent sub-agents) must leave every check silent.
 #   tool/refactor_check.py [<dir with *.diff>...]       (applies each patch to /repo, runs all quick checks, undoes it)
-# Without arguments the committed negative-control corpus refactors/R1 and refactors/R2 is used (118 patches written by
-# forty independent sub-agents, three per property and round; NOTES.md of each agent is stored next to its patches).
+# Without arguments the committed negative-control corpus refactors/R1, R2 and R3 is used (178 patches written by
+# sixty independent sub-agents, three per property and round; NOTES.md of each agent is stored next to its patches).
 import glob, json, os, re, subprocess, sys
 from concurrent.futures import ThreadPoolExecutor
 V = os.path.dirname(os.path.dirname(os.path.abspath(__file__)))
@@ -14,7 +14,7 @@ def sh(cmd, **kw):
 
 
 bad = 0
-for d in (sys.argv[1:] or [os.path.join(V, "refactors", "R1"), os.path.join(V, "refactors", "R2")]):
+for d in (sys.argv[1:] or [os.path.join(V, "refactors", "R1"), os.path.join(V, "refactors", "R2"), os.path.join(V, "refactors", "R3")]):
     for patch in sorted(glob.glob(os.path.join(os.path.abspath(d), "*.diff"))):
         if sh("git -C /repo status --porcelain --untracked-files=no").stdout.strip():
             print("refusing: /repo dirty"); sys.exit(2)
